@@ -480,6 +480,7 @@ func runSeq(c *core.Ctx, idx int64, s *seqCase) {
 	var b *cty.RefinementBuilder
 	cur := recv
 	before := observe(c, recv, kind)
+	recvObs := before
 	if before.err != "" {
 		c.Violate("Value.Range", "range accessors failed on the receiver", "", s.desc(), before.err)
 		return
@@ -516,7 +517,9 @@ func runSeq(c *core.Ctx, idx int64, s *seqCase) {
 			rb = apply(b, call)
 		})
 		c.Eval(1)
-		wit := func() string { return fmt.Sprintf("%s   [step %d: %s; model before: %s]", s.desc(), i, call, prevR.Show(kind)) }
+		wit := func() string {
+			return fmt.Sprintf("%s   [step %d: %s; model before: %s]", s.desc(), i, call, prevR.Show(kind))
+		}
 		switch exp {
 		case model.C05MustPanic:
 			if !out.Panicked {
@@ -560,9 +563,8 @@ func runSeq(c *core.Ctx, idx int64, s *seqCase) {
 		if stop {
 			return
 		}
-		if s.mode == modeChain {
-			snaps = append(snaps, snap{nv, after})
-		} else {
+		snaps = append(snaps, snap{nv, after})
+		if s.mode != modeChain {
 			cur = nv
 			// the next receiver is what came back: a collapsed result is a known receiver from now on
 			if !st.Known && kind != model.C05DynIgnore && after.known {
@@ -571,15 +573,25 @@ func runSeq(c *core.Ctx, idx int64, s *seqCase) {
 		}
 		before = after
 	}
-	// values handed out earlier must not have changed when the builder was used further (C20's subject)
+	// Values handed out earlier (and the receiver itself) still report exactly what THEIR constraints imply after the
+	// builder was used further (chain) or after they were refined again (re-refine): the range of a value is a
+	// function of the constraints stated for it, not of what happened to values derived from it.
+	first := observe(c, recv, kind)
+	if first.String() != recvObs.String() {
+		c.Violate("Value.Refine", "range reported by a value changed after it was refined again", "receiver/"+s.mode.String(), s.desc(),
+			fmt.Sprintf("receiver before: %s, after the sequence: %s", recvObs, first))
+		return
+	}
 	for k, sn := range snaps {
 		if k == len(snaps)-1 {
 			break
 		}
 		again := observe(c, sn.v, kind)
+		c.Count("clause:earlier-value-unchanged")
 		if again.String() != sn.o.String() {
-			c.CrossNote("C20", "RefinementBuilder.NewValue: a value returned earlier changed when the same builder was used further", s.desc()+fmt.Sprintf(" [after call %d: %s, later: %s]", k, sn.o, again))
-			c.Count("observed:newvalue-aliases-builder")
+			c.Violate("RefinementBuilder.NewValue", "range reported by a value changed after it was refined again", "earlier-result/"+s.mode.String(), s.desc(),
+				fmt.Sprintf("value returned after call %d reported %s, after the later calls it reports %s", k, sn.o, again))
+			c.CrossNote("C20", "RefinementBuilder.NewValue: a value returned earlier changed when the same builder (or a builder derived from the value) was used further", s.desc())
 			break
 		}
 	}
@@ -760,7 +772,7 @@ func runWith(c *core.Ctx, s *seqCase, recv cty.Value, st *model.C05State, nontri
 		if exp == model.C05MustAccept {
 			prevR := st.R
 			exp, reason = st.Step(call, safe)
-				c.Count("call:" + call.K.String())
+			c.Count("call:" + call.K.String())
 			c.Count("expect:" + exp.String())
 			if exp != model.C05MustAccept || prevR != st.R {
 				*nontrivial = true
